@@ -4,6 +4,10 @@
 // single-field mutation reachable by walking the protobuf schema, every
 // signature swap / removal / replay / re-sign, forged authorisations by keys that
 // own nothing, each judged at State.VerifyTx and at the Chain.SubmitTx sequence;
+// spend attempts on an unspent output of every OWNER KIND (key, accounts with
+// threshold / key-set / nested / zero / member-less rules, account-shaped names
+// without a rule, records that cannot be evaluated) by every initiator / signer
+// subset / entry style / signature form / contract route (owners.go);
 // plus the digest clause over a small structural domain.
 package c07
 
@@ -223,6 +227,7 @@ type job struct {
 	variant string
 	wire    []byte
 	fg      *forged
+	sp      *spendSpec
 }
 
 type baseStat struct {
@@ -403,6 +408,7 @@ type worker struct {
 	rep *core.Report
 	fx  map[string]*fixture
 	st  *stats
+	sp  *spendStats
 }
 
 func (w *worker) fixture(setup string) *fixture {
@@ -744,11 +750,11 @@ func run(tier core.Tier) *core.Report {
 	var bases []*baseTx
 	baseRejected := []string{}
 	submitOK := 0
-	for _, sn := range []string{"plain", "acct", "marked"} {
+	for _, sn := range []string{"plain", "acct", "marked", "owners"} {
 		rcp, err := getRecipe(sn)
 		if err != nil {
-			if sn == "plain" {
-				harnessError("C07 setup plain: %v", err)
+			if sn == "plain" || sn == "owners" {
+				harnessError("C07 setup %s: %v", sn, err)
 			}
 			rep.Assume(fmt.Sprintf("setup %s could not be built offline (%v): its forms are dropped", sn, err))
 			continue
@@ -831,6 +837,29 @@ func run(tier core.Tier) *core.Report {
 		}
 		baseWire[b.Name] = bw
 	}
+	// ---- spend attempts per owner kind --------------------------------------
+	spendKeys := []string{"A", "B", "D"}
+	if deep {
+		spendKeys = []string{"A", "B", "C", "D"}
+	}
+	var parts *spendParts
+	{
+		f := fresh("owners")
+		if err := checkOwnersWorld(f); err != nil {
+			harnessError("C07 setup owners: %v", err)
+		}
+		var err error
+		if parts, err = buildSpendParts(f); err != nil {
+			harnessError("C07 setup owners: %v", err)
+		}
+		f.drop()
+		for _, n := range parts.notes {
+			rep.Assume("setup owners: " + n)
+		}
+	}
+	spends := enumSpends(ownersLay.kinds, spendKeys, spendStyles(deep), versions)
+	spendTotal := newSpendStats()
+
 	ch := make(chan job, 256)
 	var wg sync.WaitGroup
 	total := newStats()
@@ -840,12 +869,14 @@ func run(tier core.Tier) *core.Report {
 		wg.Add(1)
 		go func() {
 			defer wg.Done()
-			w := &worker{rep: rep, fx: map[string]*fixture{}, st: newStats()}
+			w := &worker{rep: rep, fx: map[string]*fixture{}, st: newStats(), sp: newSpendStats()}
 			for j := range ch {
 				if rep.Expired() {
 					continue
 				}
-				if j.mut != nil {
+				if j.sp != nil {
+					w.doSpend(ownersLay, parts, j.sp)
+				} else if j.mut != nil {
 					w.doMutation(j.base, j.mut, j.variant, j.wire)
 				} else {
 					w.doForged(j.base, j.fg)
@@ -867,6 +898,7 @@ func run(tier core.Tier) *core.Report {
 			}
 			mu.Lock()
 			total.merge(w.st)
+			spendTotal.merge(w.sp)
 			reverified += rv
 			mu.Unlock()
 		}()
@@ -888,6 +920,12 @@ func run(tier core.Tier) *core.Report {
 		for i := range p.fgs {
 			ch <- job{base: p.base, fg: &p.fgs[i]}
 		}
+	}
+	for i := range spends {
+		if rep.Expired() {
+			break
+		}
+		ch <- job{sp: &spends[i]}
 	}
 	close(ch)
 	wg.Wait()
@@ -996,9 +1034,48 @@ func run(tier core.Tier) *core.Report {
 	exList = append(exList, "Txid -- left inconsistent it must be rejected (checked); recomputed it is the base transaction again",
 		"wire-identical mutants (nil vs empty) -- the same protobuf message, counted as identities")
 	judged := total.evaluated
-	rep.Set("evaluations", judged+digestTxs)
-	rep.Set("distinct_nontrivial", judged)
-	rep.Set("rule", "cases = (accepted base transaction, single-field schema mutation | signature swap/removal/replay/re-sign | forged authorisation, txid left as is | recomputed), enumerated completely in schema order; a case is non-trivial (counted) when the mutant's protobuf wire form differs from the base's and from every earlier mutant of the same base; the digest domain's transactions are counted in evaluations only")
+	rep.Set("evaluations", judged+spendTotal.attempts+digestTxs)
+	rep.Set("distinct_nontrivial", judged+spendTotal.attempts)
+	rep.Set("rule", "cases = (accepted base transaction, single-field schema mutation | signature swap/removal/replay/re-sign | forged authorisation, txid left as is | recomputed), enumerated completely in schema order; a case is non-trivial (counted) when the mutant's protobuf wire form differs from the base's and from every earlier mutant of the same base; "+
+		"plus spend attempts = (owner kind of an unspent output created by a real transfer in the setup's history, version, initiator = each key of the alphabet | the owner's name itself, every subset of the key alphabet listed in AuthRequire and signing, entry style address | owner/key | owner/member-account/key | owner/never-created-account/key, per-signer | aggregated signature, no contract | carried contract write | the carried contract spends the output on the initiator's behalf), every tuple enumerated in index order, each a distinct correctly signed transaction (counted), accepted only if the reference predicate (harness-evaluated access-control rule; no evaluable rule entitles nobody) authorises it; "+
+		"the digest domain's transactions are counted in evaluations only")
+	{
+		var kinds []map[string]interface{}
+		var vacuous []string
+		for _, k := range ownersLay.kinds {
+			how := "plain address / name"
+			switch {
+			case k.ACL != "":
+				how = "account created by $acl NewAccount with rule " + k.ACL
+			case k.Raw != "":
+				how = "account record stored by a kernel contract: " + k.Raw
+			case acctShaped(k.Owner):
+				how = "account-shaped name, no record stored"
+			}
+			kinds = append(kinds, map[string]interface{}{"kind": k.Name, "class": k.Class, "owner": k.Owner, "how": how, "entitled": k.Entitled})
+			ks := spendTotal.kind(k.Name)
+			if ks.Attempts == 0 || (k.SomeoneEntitled && ks.Accepted-ks.AcceptedNotEntitled == 0) || ks.Rejected == 0 && k.Name != "acct_zero_threshold" {
+				vacuous = append(vacuous, k.Name)
+			}
+		}
+		rep.Set("spend_owner_kinds", kinds)
+		rep.Set("spend_key_alphabet", spendKeys)
+		rep.Set("spend_entry_styles", spendStyles(deep))
+		rep.Set("spend_attempts", spendTotal.attempts)
+		rep.Set("spend_forms_absent", spendTotal.absent)
+		rep.Set("spend_accepted", spendTotal.accepted)
+		rep.Set("spend_rejected", spendTotal.rejected)
+		rep.Set("spend_reference_entitled", spendTotal.entitled)
+		rep.Set("spend_accepted_not_entitled", spendTotal.notEntitledAccepted)
+		rep.Set("spend_rejected_though_reference_entitled", spendTotal.rejectedThoughEntitled)
+		rep.Set("spend_by_owner_kind", spendTotal.byKind)
+		rep.Set("spend_attempts_by_form", spendTotal.byForm)
+		rep.Set("spend_accepted_by_form", spendTotal.acceptedByForm)
+		rep.Set("spend_vacuous_owner_kinds", vacuous)
+		if complete := !rep.HitDeadline(); complete && (spendTotal.accepted-spendTotal.notEntitledAccepted == 0 || spendTotal.rejected == 0) {
+			harnessError("C07: the spend-attempt family is vacuous: accepted %d (not entitled %d), rejected %d", spendTotal.accepted, spendTotal.notEntitledAccepted, spendTotal.rejected)
+		}
+	}
 	rep.Set("base_transactions", baseNames)
 	rep.Set("base_forms", len(forms))
 	rep.Set("base_rejected_dropped", baseRejected)
@@ -1047,6 +1124,7 @@ func run(tier core.Tier) *core.Report {
 	rep.Assume("the fixture world (in-memory kv engine, xkernel contracts only, single-miner genesis) stands for a node; VerifyTx is observed on a world whose pool is empty")
 	rep.Assume("block-path acceptance (verifyDAGTxs) is out of scope here (observed by C13)")
 	rep.Assume("aggregated-signature base forms are created offline with the crypto client's multi-signature step API (nonces derived from key and message); account forms use an account created by the real $acl NewAccount method and confirmed in block 1; the 'marked' setup marks a confirmed transaction through Ledger.UpdateBlockChainData, which no other xupercore code calls")
+	rep.Assume("setup 'owners': accounts are created by the real $acl NewAccount method; the records $acl refuses to store (no permission model, rule NULL / unimplemented / unknown, unparsable) are written into the account bucket by the harness kernel contract $vkv and stand for a record left by other code; every owner kind is paid by a real transfer confirmed in block 1; a zero-threshold rule entitles everybody (the rule's own arithmetic), observed, not judged")
 	rep.Assume("no exemption was needed for $transient TxOutputsExt entries: they are covered by the digest, their mutants are rejected")
 	return rep
 }
